@@ -84,7 +84,12 @@ pub struct L1Result {
 }
 
 pub fn world(seed: u64) -> (World, usize) {
-    let c = util::committee(seed, &[2, 2, 1, 1]);
+    world_fb(seed, 0)
+}
+
+/// The same world on a chain whose genesis starts at block `first_block` (the replica's store starts there).
+pub fn world_fb(seed: u64, first_block: u64) -> (World, usize) {
+    let c = util::committee_fb(seed, &[2, 2, 1, 1], first_block);
     // replica under test: the first weight-1 validator in schedule order
     let r = c.weights.iter().position(|w| *w == 1).unwrap();
     (World { c, proposals: vec![Payload(vec![0x58]), Payload(vec![0x58, 1])], invalid_payload: Payload(vec![0xBA, 0xD0]) }, r)
@@ -469,7 +474,7 @@ pub fn explore_alphabet(w: &World, r: usize, cfg: &L1Cfg, alpha: Vec<(String, In
                 *res.outcome_classes.entry(k).or_default() += c;
             }
             for (k, v, path) in e.viol {
-                violations.entry(k.clone()).or_insert_with(|| (format!("[{k}] {v}\n  path ({} steps): {}", path.len(), path.join("  ->  ")), serde_json::json!({"harness": "l1", "path": path})));
+                violations.entry(k.clone()).or_insert_with(|| (format!("[{k}] {v}\n  path ({} steps): {}", path.len(), path.join("  ->  ")), serde_json::json!({"harness": "l1", "path": path, "first_block": w.c.genesis.first_block.0})));
             }
             for (n, key) in e.succ {
                 if seen.insert(key) {
